@@ -187,7 +187,7 @@ def run(ctx):
         cfg = v["cfg"]
         obs = observe(cfg, i)
         ctx.evaluations += 1
-        sc = {"cfg": cfg, "variant": i % 12}
+        sc = {"cfg": cfg, "variant": i % 60}
         if "crash" in obs:
             ctx.violation(sc, "crash: " + obs["crash"])
             continue
@@ -204,7 +204,7 @@ def run(ctx):
     ctx.traces += len(recs) - len(rejects)
     for rec in recs:
         if rec["tid"] in rejects:
-            ctx.violation({"cfg": rec["cfg"], "variant": rec["tid"] % 12},
+            ctx.violation({"cfg": rec["cfg"], "variant": rec["tid"] % 60},
                           "code->spec: TLC rejects tuning run, clause %s; observed %s"
                           % (rejects[rec["tid"]], canon(rec["obs"])[:400]))
     return ctx.finish(
